@@ -315,6 +315,12 @@ def _worker_init(pid: str) -> None:
     warnings.simplefilter("ignore")
     logging.disable(logging.CRITICAL)
     _PROP = _load_prop(pid)
+    # the forked worker inherits the parent's heap (all generated cases); keep the collector off it,
+    # some harnesses call gc.collect() once per case
+    import gc
+
+    gc.collect()
+    gc.freeze()
 
 
 def _worker_run(case: dict[str, Any]) -> tuple[dict[str, Any], Any, str | None]:
